@@ -914,3 +914,185 @@ where
         Err(_) => "HARNESS-ERROR panic outside the guarded steps".into(),
     }
 }
+
+// ---------------------------------------------------------------- tests of the harness itself
+
+#[cfg(test)]
+mod tests {
+    use super::*;
+    use crate::impl_dyn_sized;
+    use crate::probe::FromSpec;
+    use flatty::{flat, prelude::*};
+    use std::fmt::Write as _;
+
+    /// an 8 byte message of the suite's own, so that the tests do not depend on the generated shapes
+    #[flat(default = true)]
+    pub struct TMsg {
+        pub a: u32,
+        pub b: u32,
+    }
+    impl DeepRead for TMsg {
+        fn deep(&self, o: &mut String) {
+            write!(o, "(n0 {:#x} {:#x})", self.a, self.b).unwrap();
+        }
+    }
+    impl FromSpec for TMsg {
+        fn from_spec(s: &Spec) -> Self {
+            match s {
+                Spec::Seq(v) => TMsg {
+                    a: FromSpec::from_spec(&v[0]),
+                    b: FromSpec::from_spec(&v[1]),
+                },
+                _ => panic!("bad spec"),
+            }
+        }
+    }
+    impl_dyn_sized!(TMsg);
+    impl Probe for TMsg {
+        const STATIC_SIZE: Option<usize> = Some(<TMsg as FlatSized>::SIZE);
+        fn dflt(b: &mut [u8]) -> Option<Result<(), flatty::Error>> {
+            Some(<TMsg>::default_in_place(b).map(|_| ()))
+        }
+    }
+
+    /// the expected panics of the library would clutter the output; IO_TEST_LOUD=1 shows them
+    fn quiet() {
+        if std::env::var_os("IO_TEST_LOUD").is_none() {
+            std::panic::set_hook(Box::new(|_| {}));
+        }
+    }
+    fn io(kind: &str, line: &str) -> String {
+        let args: Vec<&str> = line.split(' ').collect();
+        run_io::<TMsg>(kind, &args)
+    }
+    fn specs(line: &str) -> Vec<Spec> {
+        let toks: Vec<&str> = line.split(' ').collect();
+        parse_inits(&toks).unwrap()
+    }
+    const TWO: &str = "01000000020000000300000004000000";
+
+    #[test]
+    fn watchdog_payload() {
+        quiet();
+        let p = catch_unwind(|| panic_any(WATCHDOG)).unwrap_err();
+        assert!(is_watchdog(&p));
+        let p = catch_unwind(|| panic!("WATCHDOG")).unwrap_err();
+        assert!(is_watchdog(&p));
+        let p = catch_unwind(|| panic!("other")).unwrap_err();
+        assert!(!is_watchdog(&p));
+    }
+
+    #[test]
+    fn round_trip() {
+        quiet();
+        let inits = "| (seq (i 1) (i 2)) | (seq (i 3) (i 4))";
+        let want = format!("s=ok;ok sink={} calls=", TWO);
+        assert_eq!(io("send", &format!("8 - {}", inits)), format!("{}2", want));
+        assert_eq!(io("send", &format!("8 a1,a2,a3,a1,a1,a5 {}", inits)), format!("{}7", want));
+        assert_eq!(
+            io("asend", &format!("8 a3,p,a100 fp {}", inits)),
+            format!("s=ok[w3.wp.w5.fp.fo];ok[w8.fo] sink={} calls=4 polls=6", TWO)
+        );
+        let r = "r=msg:(n0 0x1 0x2);msg:(n0 0x3 0x4);closed calls=";
+        assert_eq!(io("recv", &format!("8 {} - 3", TWO)), format!("{}2", r));
+        assert_eq!(io("recv", &format!("8 {} d1,d1,d2,d3,d1,d7,d1 3", TWO)), format!("{}8", r));
+        assert_eq!(io("arecv", &format!("8 {} p,d3,p,p,d100 3", TWO)), format!("{}6 polls=6", r));
+    }
+
+    #[test]
+    fn recv_directives() {
+        quiet();
+        assert_eq!(
+            io("recv", &format!("8 {} d3,eInterrupted,z,eWouldBlock 6", TWO)),
+            "r=read:Interrupted;closed;read:WouldBlock;msg:(n0 0x1 0x2);msg:(n0 0x3 0x4);closed calls=6"
+        );
+        // max_msg_len below MIN_SIZE: the buffer is 2 * MIN_SIZE = 16 bytes, both messages arrive at once
+        assert_eq!(io("recv", &format!("4 {} - 3", TWO)), "r=msg:(n0 0x1 0x2);msg:(n0 0x3 0x4);closed calls=2");
+        // a buffer of 16 bytes: the third message arrives after the first two were taken out
+        assert_eq!(
+            io("recv", &format!("8 {}0500000006000000 - 4", TWO)),
+            "r=msg:(n0 0x1 0x2);msg:(n0 0x3 0x4);msg:(n0 0x5 0x6);closed calls=3"
+        );
+        assert_eq!(io("recv", "8 0100000002 - 2"), "r=closed;closed calls=3");
+        assert_eq!(io("recv", "8 - - 0"), "r= calls=0");
+        assert!(io("recv", "8 - p 1").starts_with("HARNESS-ERROR"));
+    }
+
+    #[test]
+    fn send_directives() {
+        quiet();
+        let inits = "| (seq (i 1) (i 2)) | (seq (i 3) (i 4)) | (seq (i 5) (i 6))";
+        assert_eq!(
+            io("send", &format!("8 z,eOther,a3,eTimedOut {}", inits)),
+            "s=io:BrokenPipe;io:Other;io:TimedOut sink=050000 calls=4"
+        );
+        // a partial message poisons the sender: the next send panics on the assert
+        assert_eq!(io("send", &format!("8 a3,z {}", inits)), "s=io:BrokenPipe;panic;panic sink=010000 calls=2");
+        assert_eq!(
+            io("asend", &format!("8 a3,p,z feOther {}", inits)),
+            "s=io:BrokenPipe[w3.wp.wz];panic[];panic[] sink=010000 calls=3 polls=7"
+        );
+        assert_eq!(
+            io("asend", &format!("8 - feOther,fp {}", inits)),
+            format!("s=io:Other[w8.fe];ok[w8.fp.fo];ok[w8.fo] sink=0100000002000000{}0500000006000000 calls=3 polls=7", &TWO[16..])
+        );
+    }
+
+    #[test]
+    fn watchdogs() {
+        quiet();
+        let d1: VecDeque<Dir> = (0..8).map(|_| Dir::Data(1)).collect();
+        assert_eq!(
+            recv_case::<TMsg>(8, hex_to_bytes(TWO), d1.clone(), 3, 2, false),
+            "r=hang calls=3"
+        );
+        assert_eq!(
+            recv_case::<TMsg>(8, hex_to_bytes(TWO), d1.clone(), 3, 2, true),
+            "r=hang calls=3 polls=1"
+        );
+        let p: VecDeque<Dir> = (0..8).map(|_| Dir::Pending).collect();
+        assert_eq!(
+            recv_case::<TMsg>(8, hex_to_bytes(TWO), p.clone(), 3, 2, true),
+            "r=hang calls=2 polls=2"
+        );
+        let sp = specs("| (seq (i 1) (i 2)) | (seq (i 3) (i 4))");
+        assert_eq!(send_case::<TMsg>(8, d1.clone(), &sp, 2), "s=hang sink=0100 calls=3");
+        assert_eq!(
+            asend_case::<TMsg>(8, d1.clone(), VecDeque::new(), &sp, 2),
+            "s=hang[w1.w1] sink=0100 calls=3 polls=2"
+        );
+        assert_eq!(
+            asend_case::<TMsg>(8, p.clone(), VecDeque::new(), &sp, 3),
+            "s=hang[wp.wp] sink=- calls=2 polls=3"
+        );
+    }
+
+    #[test]
+    fn sys() {
+        quiet();
+        let inits = "| (seq (i 1) (i 2)) | (seq (i 3) (i 4))";
+        let all = "delivered=(n0 0x1 0x2);(n0 0x3 0x4) recv_end=closed send_end=ok polls=";
+        assert_eq!(io("sys", &format!("8 100 - {}", inits)), format!("{}2", all));
+        assert_eq!(io("sys", &format!("8 100 sSrR {}", inits)), format!("{}4", all));
+        // every S moves 4 bytes into the ring, every R takes them out; the 4th S ends the sender, the 4th R sees the close
+        assert_eq!(io("sys", &format!("8 4 - {}", inits)), format!("{}8", all));
+        for cap in 1..=5 {
+            for sch in ["-", "SSSS", "RRRR", "srsrsr", "rRsSrRsS", "ssrrSR"] {
+                let r = io("sys", &format!("8 {} {} {}", cap, sch, inits));
+                assert!(r.starts_with(all), "{} {}: {}", cap, sch, r);
+            }
+        }
+        assert_eq!(io("sys", "8 3 SR"), "delivered= recv_end=closed send_end=ok polls=2");
+        let sp = specs(inits);
+        // budget of the tail used up
+        assert_eq!(
+            sys_case::<TMsg>(8, 1, &['S', 'R'], &sp, 4, 1000),
+            "delivered= recv_end=running send_end=running polls=6"
+        );
+        // the ring's own watchdog
+        assert_eq!(
+            sys_case::<TMsg>(8, 1, &[], &sp, 1000, 3),
+            "delivered= recv_end=hang send_end=hang polls=3"
+        );
+    }
+}
